@@ -5,6 +5,8 @@ pub mod c02;
 pub mod c03;
 pub mod c04;
 pub mod c06;
+pub mod c07;
+pub mod c08;
 pub mod c16;
 pub mod exec;
 pub mod explore;
